@@ -664,6 +664,52 @@ Section LoadFacts.
       rewrite Espec. split; [reflexivity|apply cache_ok_set; exact Hc1].
   Qed.
 
+  (* ---- totality: with an acyclic dependency relation (a rank that decreases along dependencies),
+     every dependency present in the bundle and more fuel than the rank, loading succeeds whatever the
+     orders and whatever the (consistent) cache holds.  The Go code needs no fuel: it recurses along
+     the same relation and detects cycles through the resolveBaton chain. *)
+  Definition well_founded_deps (b : @bundle F) (rank : bytes -> nat) : Prop :=
+    forall n files, find_pkg n b = Some files ->
+      forall d, In d (dep_names n files) -> find_pkg d b <> None /\ (rank d < rank n)%nat.
+
+  Lemma dep_loop_total fuel b rank :
+    valid b ->
+    (forall n c, cache_ok b c -> find_pkg n b <> None -> (rank n < fuel)%nat -> exists c' p, load fuel b c n = Some (c', p)) ->
+    forall deps c ds, cache_ok b c ->
+      (forall d, In d deps -> find_pkg d b <> None /\ (rank d < fuel)%nat) ->
+      exists c' ds', fold_left (dep_step fuel b) deps (Some (c, ds)) = Some (c', ds').
+  Proof.
+    intros Hv IH. induction deps as [|d r IHd]; intros c ds Hc Hd; cbn [fold_left].
+    - eauto.
+    - destruct (Hd d (or_introl eq_refl)) as [Hf Hr].
+      destruct (IH d c Hc Hf Hr) as [c1 [pd El]]. cbn [dep_step]. rewrite El.
+      destruct (load_spec b Hv _ _ _ _ _ Hc El) as [_ Hc1].
+      apply IHd; [exact Hc1|]. intros x Hx. apply Hd. right. exact Hx.
+  Qed.
+
+  Theorem load_total (b : @bundle F) rank : valid b -> well_founded_deps b rank ->
+    forall fuel n c, cache_ok b c -> find_pkg n b <> None -> (rank n < fuel)%nat ->
+      exists c' p, load fuel b c n = Some (c', p).
+  Proof.
+    intros Hv Hw. induction fuel as [|fuel IH]; intros n c Hc Hf Hr; [lia|].
+    cbn [CmpbOrder.load]. destruct (map_get n c) as [p0|] eqn:G; [eauto|].
+    destruct (find_pkg n b) as [files0|] eqn:Ef; [|congruence].
+    fold (dep_step fuel b).
+    set (files := list_files n files0).
+    assert (Hpf : Permutation files files0) by apply list_files_perm.
+    assert (Hvp : valid_pkg files0) by (apply (Hv n); exact Ef).
+    assert (Eown : collect_exports files = collect_exports files0) by (apply collect_exports_perm; [|exact Hpf];
+      destruct Hvp as [A B]; split;
+      [apply (Permutation_NoDup (Permutation_map fst (all_exports_perm _ _ (Permutation_sym Hpf)))); exact A
+      |apply (Permutation_NoDup (Permutation_map f_name (Permutation_sym Hpf))); exact B]).
+    assert (Edeps : collect_deps n files = collect_deps n files0) by (apply collect_deps_perm; exact Hpf).
+    rewrite Eown, Edeps. fold (dep_names n files0).
+    destruct (dep_loop_total fuel b rank Hv IH (range_deps n (dep_names n files0)) c [] Hc) as [c1 [ds Efold]].
+    - intros d Hd. apply (Permutation_in _ (range_deps_perm n _)) in Hd.
+      destruct (Hw n files0 Ef d Hd) as [H1 H2]. split; [exact H1|lia].
+    - rewrite Efold. eauto.
+  Qed.
+
   (* CompilePackage returns exactly the package's files in file-name order *)
   Lemma sorted_keys_fixed {V} (m : list (bytes * V)) l : keys_sorted m -> Permutation l (map fst m) -> sort_names l = map fst m.
   Proof.
@@ -705,6 +751,16 @@ Section LoadFacts.
     rewrite (sorted_keys_fixed _ _ Hs (range_files_perm n _)). apply lookup_all. exact Hs.
   Qed.
 
+  Theorem compile_package_total (b : @bundle F) rank : valid b -> well_founded_deps b rank ->
+    forall fuel c n, cache_ok b c -> find_pkg n b <> None -> (rank n < fuel)%nat ->
+      exists c', compile_package convert list_files range_deps range_files fuel b c n = Some (c', p_files (spec_pkg b n)).
+  Proof.
+    intros Hv Hw fuel c n Hc Hf Hr. destruct (load_total b rank Hv Hw fuel n c Hc Hf Hr) as [c1 [p El]].
+    destruct (compile_package convert list_files range_deps range_files fuel b c n) as [[c' out]|] eqn:E.
+    - destruct (compile_package_spec b Hv _ _ _ _ _ Hc E) as [Ho _]. subst out. eauto.
+    - unfold compile_package in E. rewrite El in E. discriminate.
+  Qed.
+
   (* whatever was compiled before on this PackageSet leaves a cache that changes nothing *)
   Lemma compile_seq_cache_ok (b : @bundle F) : valid b ->
     forall fuel calls c, cache_ok b c ->
@@ -716,6 +772,21 @@ Section LoadFacts.
     - apply IH. exact Hc.
   Qed.
 End LoadFacts.
+
+(* Total form: on a valid bundle with acyclic, present dependencies and enough fuel, EVERY run returns,
+   and returns the package as the bundle alone determines it *)
+Theorem compile_total_deterministic {F D} (convert : env -> @srcfile F -> D) (b : @bundle F) rank :
+  valid b -> well_founded_deps b rank ->
+  forall lf rd rf,
+    (forall n l, Permutation (lf n l) l) -> (forall n l, Permutation (rd n l) l) -> (forall n l, Permutation (rf n l) l) ->
+  forall fuel earlier n, find_pkg n b <> None -> (rank n < fuel)%nat ->
+    exists c, compile_package convert lf rd rf fuel b (compile_seq convert lf rd rf fuel b [] earlier) n
+              = Some (c, p_files (spec_pkg convert b n)).
+Proof.
+  intros Hv Hw lf rd rf P1 P2 P3 fuel earlier n Hf Hr.
+  apply (compile_package_total convert lf rd rf P1 P2 P3 b rank Hv Hw); auto.
+  apply compile_seq_cache_ok; auto. apply cache_ok_nil.
+Qed.
 
 (* Two runs of the same bundle under different listing orders, map iteration orders, fuels, and
    with different histories of earlier CompilePackage calls on their PackageSets, return the same
